@@ -229,6 +229,35 @@ def run(spec, R):
         R.count('foreign_exceptions')
         one(R, kind, wsgi, server, rec, 'foreign:' + ek, ('Server', 'Internal Error', None), 500, {'seed': spec['seed'], 'i': i, 'exc': ek}, rng,
             tokens=tok.all())
+    # ---- the method picks the protocol of its own answer, then fails: code, message and status are those of the protocol that writes the answer
+    for fmt in ('json', 'xml', 'yaml', 'soap11'):
+        for how, ecode, dedicated in (('fault', 'Client.Negotiated', None), ('server_fault', 'Server.Negotiated', None), ('notfound', 'Client.ResourceNotFound', 404)):
+            req = M.encode_request(kind, 'negotiate', [('fmt', fmt), ('how', how)])
+            env, inp = drive.make_environ(req['method'], req['path'], req['qs'], req['body'], req['content_type'])
+            rec.reset()
+            w = drive.call_wsgi(wsgi, env, inp)
+            R.evaluations += 1
+            case = {'seed': spec['seed'], 'kind': kind, 'what': 'negotiated', 'fmt': fmt, 'how': how}
+            if w.exc is not None:
+                R.violation('exception escaped the WSGI callable: %r' % w.exc, case, mech='escape:%s:%s' % (type(w.exc).__name__, drive.innermost_spyne_frame(w.exc)))
+                continue
+            if not any(c[0] == 'negotiate' and tuple(c[1][:2]) == (fmt, how) for c in rec.calls):
+                R.skip('negotiate did not run with these arguments')
+                continue
+            f = decode_fault_any(fmt, w.body)
+            R.count('negotiated_faults')
+            if f is None:
+                R.violation('answer of a failing call is not a fault document of the protocol the method chose (%s): %r' % (fmt, w.body[:200]), case,
+                            mech='negotiated:not_a_fault_document:%s' % fmt)
+                continue
+            if f[0] != ecode:
+                R.violation('negotiated fault code %r arrived as %r' % (ecode, f[0]), case, mech='negotiated:fault_code_differs:%s' % fmt)
+            want = expected_status(fmt, f[0] or '', dedicated)
+            if w.code != want:
+                R.violation('fault written by %s (application default %s) answered %s, the mapping of the writing protocol says %d' % (fmt, kind, w.status, want),
+                            case, mech='negotiated:http_status:%s:%s->%s' % (fmt, want, w.code))
+            R.nontrivial(kind, 'negotiated', fmt, how, w.code)
+            R.cell('%s|wsgi|negotiated' % kind)
     # ---- loopback client: the fault reaches the caller as ctx.in_error
     if kind in ('soap11', 'soap12'):
         loopback(R, kind, rng, spec)
